@@ -90,7 +90,9 @@ class Workspace:
         os.makedirs(os.path.join(root, "buildpacks", "shell-bp", "bin"))
         self._write("buildpacks/shell-bp/buildpack.toml", 'api = "0.10"\n\n[buildpack]\nid = "verif/shell"\nversion = "1.0.0"\n\n[[targets]]\nos = "linux"\n')
         self._write("buildpacks/shell-bp/bin/build", "#!/bin/sh\n")
-        self._write("Cargo.toml", "[workspace]\nresolver = \"2\"\nmembers = [\n" + "".join(f'  "{m}",\n' for m in members) + "]\n")
+        # (default-members: what a bare `cargo build` at the workspace root builds is not every buildpack)
+        self._write("Cargo.toml", "[workspace]\nresolver = \"2\"\nmembers = [\n" + "".join(f'  "{m}",\n' for m in members) + "]\n"
+                    + f'default-members = ["{members[-1]}"]\n')
         self._write(".ignore", "packaged/\ncustom-out/\nrel-out/\n")
 
     def _write(self, rel, text):
